@@ -11,6 +11,7 @@ import (
 	"strconv"
 	"strings"
 	"sync"
+	"time"
 
 	"github.com/elastic/go-libaudit/v2/aucoalesce"
 	"github.com/elastic/go-libaudit/v2/auparse"
@@ -54,6 +55,44 @@ func coCopyMap(m map[string]string) map[string]string {
 		out[k] = v
 	}
 	return out
+}
+
+// c09FineTime: the identity clause for records whose time the caller set through the exported field (a record that came
+// by another route than audit text, which has millisecond resolution): the messages are built again, every Timestamp is
+// moved by a fraction of a millisecond (and, in turn, given a zone and a monotonic reading), and the event must carry
+// exactly the first record's time, sequence and type.
+func c09FineTime(c C09Case, variant int) string {
+	msgs, err := coal.BuildAll(c.Recs)
+	if err != nil || len(msgs) == 0 {
+		return ""
+	}
+	for i, m := range msgs {
+		switch variant % 3 {
+		case 0:
+			m.Timestamp = m.Timestamp.Add(time.Duration(456789 + 1000*i))
+		case 1:
+			m.Timestamp = m.Timestamp.Add(time.Duration(999999)).In(time.FixedZone("x", 5*3600+1800))
+		default:
+			m.Timestamp = time.Now().Add(time.Duration(i) * time.Nanosecond) // carries a monotonic reading
+		}
+	}
+	first := msgs[0]
+	want := first.Timestamp
+	var ev *aucoalesce.Event
+	func() {
+		defer func() { recover() }()
+		ev, err = aucoalesce.CoalesceMessages(msgs)
+	}()
+	if err != nil || ev == nil {
+		return ""
+	}
+	if !ev.Timestamp.Equal(want) || ev.Timestamp.UnixNano() != want.UnixNano() {
+		return fmt.Sprintf("identity — identity: the first record's Timestamp is %s, the event's is %s", want.Format(time.RFC3339Nano), ev.Timestamp.Format(time.RFC3339Nano))
+	}
+	if ev.Sequence != first.Sequence || ev.Type != first.RecordType {
+		return fmt.Sprintf("identity — identity: the first record has sequence %d and type %d, the event %d and %d", first.Sequence, first.RecordType, ev.Sequence, ev.Type)
+	}
+	return ""
 }
 
 func runC09Impl(c C09Case) c09Run {
@@ -771,6 +810,11 @@ func c09Family(ctx *Ctx) error {
 						mu.Unlock()
 					}
 					report(evalC09(ctx, cases[i], r, reply, base+i), cases[i], m)
+					if (base+i)%16 == 0 && r.buildErr == nil {
+						if cl := c09FineTime(cases[i], (base+i)/16); cl != "" {
+							res.Violate(common.Violation{Kind: "monitor", Clause: cl, Input: cases[i], Case: base + i, Note: "with the records' Timestamp fields moved by a fraction of a millisecond after parsing"})
+						}
+					}
 				}
 			}(w, lo, hi)
 		}
